@@ -154,6 +154,8 @@ pub fn world_defs() -> Vec<WorldDef> {
         WorldDef { name: "2p-bc-seed", ports: vec![(false, false), (false, false)], slave_only: false, seed: vec![Ev::Ann(0, 0), Ev::Ann(0, 0), Ev::T(1, Timer::Receipt), Ev::Bmca], obedient: false, rich: false, depth: (4, 6) },
         WorldDef { name: "2p-p2p+masteronly", ports: vec![(true, false), (false, true)], slave_only: false, seed: vec![], obedient: false, rich: false, depth: (4, 6) },
         WorldDef { name: "2p-slaveonly", ports: vec![(false, false), (false, false)], slave_only: true, seed: vec![], obedient: false, rich: false, depth: (5, 6) },
+        // B (priority1 100) is better than the instance too: slave of B first, then the better A appears
+        WorldDef { name: "1p-e2e-two-better-masters", ports: vec![(false, false)], slave_only: false, seed: vec![Ev::Ann(0, 1), Ev::Ann(0, 1), Ev::Bmca], obedient: false, rich: false, depth: (5, 6) },
         // both ports on one segment: every Announce of A or B reaches both ports as the same frame
         WorldDef { name: "2p-shared-segment", ports: vec![(false, false), (false, false)], slave_only: false, seed: vec![], obedient: false, rich: false, depth: (5, 6) },
         WorldDef { name: "3p-mixed", ports: vec![(false, false), (true, false), (false, true)], slave_only: false, seed: slave_seed, obedient: true, rich: false, depth: (4, 5) },
@@ -173,6 +175,9 @@ pub fn build<'m, M: Monitor>(property: &'static str, monitor: &'m M, defs: Vec<W
                 a = port_alphabet(a, p, *p2p, d.rich);
             }
             a = global_alphabet(a);
+            if d.name.contains("two-better-masters") {
+                cfg.peers[1].priority1 = 100;
+            }
             let mut macros = vec![];
             if d.name.contains("shared-segment") {
                 // the same frame (same sequence id) on every port, in port order
